@@ -253,3 +253,85 @@ func VF_C14_select() {
 	vfAssert(c14Same(cl.do(bs("get"), bs("k")), al.do(bs("get"), bs("k"))), "cluster-select-back-read")
 	vfAssert(c14Same(cl.do(bs("select"), bs("7")), al.do(bs("select"), bs("7"))), "cluster-select-out-of-range")
 }
+
+// ---------------------------------------------------------------------------
+// c14CommitDatabase: every committed entry is applied to the database recorded in it, whatever the entries
+// before it (in the same or in an earlier commit) named. Three APPENDs on one key with symbolic databases
+// are delivered in each of the four possible groupings into commits; the reference applies each command
+// directly to the database it names.
+func c14CommitDatabase() {
+	cl := c14Start()
+	ref := hNewManager(2)
+	ctx := context.Background()
+	var ps []*raftexample.RaftProposal
+	for i := 0; i < 3; i++ {
+		db := vfChoice("db"+string(rune('0'+i)), 2)
+		p := &raftexample.RaftProposal{ID: "p" + string(rune('0'+i)), Args: [][]byte{bs("append"), bs("k"), {byte('a' + i)}}, DB: db}
+		ps = append(ps, p)
+		ref.DBs[db].ExecCommand(ctx, p.Args, nil)
+	}
+	var groups [][]*raftexample.RaftProposal
+	switch vfChoice("grouping", 4) {
+	case 0:
+		groups = [][]*raftexample.RaftProposal{ps}
+	case 1:
+		groups = [][]*raftexample.RaftProposal{ps[:1], ps[1:]}
+	case 2:
+		groups = [][]*raftexample.RaftProposal{ps[:2], ps[2:]}
+	default:
+		groups = [][]*raftexample.RaftProposal{ps[:1], ps[1:2], ps[2:]}
+	}
+	for _, g := range groups {
+		d := make(chan struct{}, 1)
+		cl.commitC <- &raftexample.RaftCommit{Data: g, ApplyDoneC: d}
+		<-d
+	}
+	for db := 0; db < 2; db++ {
+		x := cl.mgr.DBs[db].ExecCommand(ctx, [][]byte{bs("get"), bs("k")}, nil)
+		y := ref.DBs[db].ExecCommand(ctx, [][]byte{bs("get"), bs("k")}, nil)
+		vfAssert(c14Same(x.ToBytes(), y.ToBytes()), "committed-entry-applied-to-its-own-database")
+	}
+}
+
+func VF_C14_commit_database() { c14CommitDatabase() }
+func VF_C20_commit_database() { c14CommitDatabase() }
+func VF_C14_batching()        { VF_C07_batching() }
+
+// VF_C14_concurrent_proposals: two connections have a command each on its way to Raft at the same time
+// (both handlers are parked on proposeC before the harness, playing Raft, takes either proposal). Each
+// proposal must still carry exactly the arguments its own connection sent.
+func VF_C14_concurrent_proposals() {
+	cl := c14Start()
+	c2 := cl.connect("C2")
+	va, vb := vfBytes("va", 1, 1), vfBytes("vb", 1, 1)
+	vfAssume(vfAnd(va[0] < 0x80, vb[0] < 0x80))
+	cmdA := [][]byte{bs("set"), bs("ka"), va}
+	cmdB := [][]byte{bs("rpush"), bs("kb"), vb}
+	cl.conn.In <- vfEncode(cmdA...)
+	c2.In <- vfEncode(cmdB...)
+	vfSettle()
+	seenA, seenB := false, false
+	var taken []*raftexample.RaftProposal
+	for i := 0; i < 2; i++ {
+		taken = append(taken, <-cl.proposeC)
+	}
+	for _, p := range taken {
+		q := c14JSON(p)
+		want := cmdB
+		if len(q.Args) > 0 && string(q.Args[0]) == "set" {
+			want = cmdA
+			seenA = true
+		} else {
+			seenB = true
+		}
+		vfAssert(len(q.Args) == len(want), "concurrent-proposal-argument-count")
+		for j := range want {
+			vfAssert(vfBytesEq(q.Args[j], want[j]), "concurrent-proposal-arguments-are-the-senders")
+		}
+		d := make(chan struct{}, 1)
+		cl.commitC <- &raftexample.RaftCommit{Data: []*raftexample.RaftProposal{q}, ApplyDoneC: d}
+	}
+	vfAssert(seenA && seenB, "concurrent-proposals-both-arrive")
+	<-cl.conn.Out
+	<-c2.Out
+}
